@@ -42,8 +42,8 @@ THEOREMS = [
     'Px.Static.C13_normpath_abs_clean', 'Px.Static.C13_normpath_idem_abs', 'Px.Static.C13_resolve_eq_normpath',
     'Px.Static.C13_escape_404_request', 'Px.Static.C13_relative_root_not_confined',
 ]
-EXH_NP = {'quick': 6, 'thorough': 10}
-EXH_PLUG = {'quick': 5, 'thorough': 8}
+EXH_NP = {'quick': 6, 'thorough': 11}
+EXH_PLUG = {'quick': 5, 'thorough': 9}
 EXH_E2E = {'quick': 4, 'thorough': 7}
 RULE = ('np: strings run through os.path.normpath and the model; plug/e2e: (static dir spelling, request path, '
         'min_compression_length) run through the real HttpWebServerPlugin / HttpProtocolHandler against a '
@@ -416,7 +416,7 @@ def oracle(case):
     status, body, opened = _observe(case)
     for o in opened:
         oc = lex_resolve([], o)
-        if not (len(oc) > len(rootc) and oc[:len(rootc)] == rootc):
+        if oc[:len(rootc)] != rootc:       # (the root directory itself is not outside)
             return 'opened-path-outside-root'
     if status == '200':
         if not inside:
@@ -566,7 +566,7 @@ def generate(rng, tier):
     for s in _strings('a/.', EXH_E2E[tier]):
         yield _e2e(R, '/' + s)
     # random
-    for _ in range(12000 if big else 1300):
+    for _ in range(25000 if big else 1300):
         r = rng.random()
         d = rng.choice(DIRS_GUARDED) if r < 0.8 else rng.choice(DIRS_FSROOT) if r < 0.87 else rng.choice(DIRS_RELATIVE)
         mcl = 20 if rng.random() < 0.7 else rng.choice([0, 1, 5, 19, 21, 24, 64, 1000, -1])
